@@ -7,7 +7,7 @@
 (*   ReadFile(fmt, types, text)            Good(sequence of tuples) or Err *)
 (*   Representable(fmt, types, tuple)      by character classes            *)
 (*   theorem (checked by TLC in MC_CsvIO over the enumerated space):       *)
-(*      Representable => ReadFile(WriteFile(<<tuple>>)) = <<tuple>>        *)
+(*      Representable /\ ~KnownGap <=> ReadFile(WriteFile(<<tuple>>)) = <<tuple>>  *)
 (*                                                                         *)
 (* fmt = [kind, rfc, delim, explicit, headers]:                            *)
 (*   kind "text": delimiter-separated text; rfc = the rfc4180 option;      *)
@@ -201,22 +201,18 @@ ClassifyField(ty, t) ==
          ELSE Res("reject", NoVal, IF ~r.ok /\ r.uw THEN "range-nested-unsigned" ELSE "shape")
 
 \* ---- line / file reader ------------------------------------------------------------------
-\* Plain text: a field ends at the first delimiter outside brackets when the delimiter contains ',' (the reader's
-\* "record/tuple delimiter coincidence" rule; the specification counts '(' ')' as well as '[' ']' so that ADT
-\* arguments are protected like record elements), otherwise at the first delimiter.
-Opens == {"[", "("}
-Closes == {"]", ")"}
-Match(o, c) == (o = "[" /\ c = "]") \/ (o = "(" /\ c = ")")
+\* Plain text: a field ends at the first delimiter; when the delimiter contains ',' the reader's "record/tuple
+\* delimiter coincidence" rule applies: a delimiter inside [...] does not count and the brackets must balance.
 RECURSIVE DepthScan(_, _, _, _)
 \* first position q >= p outside all brackets where delim occurs (or Len+1 at the end of the line);
-\* -1 when brackets do not nest properly (st = stack of open brackets)
-DepthScan(t, p, delim, st) ==
-    IF p > Len(t) THEN (IF st = <<>> THEN p ELSE -1)
-    ELSE IF st = <<>> /\ Occurs(delim, t, p) THEN p
-    ELSE IF t[p] \in Opens THEN DepthScan(t, p + 1, delim, <<t[p]>> \o st)
-    ELSE IF t[p] \in Closes THEN (IF st # <<>> /\ Match(st[1], t[p]) THEN DepthScan(t, p + 1, delim, Tail(st)) ELSE -1)
-    ELSE DepthScan(t, p + 1, delim, st)
-FieldEnd(fmt, t, p) == IF Has(fmt.delim, ",") THEN DepthScan(t, p, fmt.delim, <<>>) ELSE Find(fmt.delim, t, p)
+\* -1 when a ']' has no '[' or a '[' is never closed
+DepthScan(t, p, delim, depth) ==
+    IF p > Len(t) THEN (IF depth = 0 THEN p ELSE -1)
+    ELSE IF depth = 0 /\ Occurs(delim, t, p) THEN p
+    ELSE IF t[p] = "[" THEN DepthScan(t, p + 1, delim, depth + 1)
+    ELSE IF t[p] = "]" THEN (IF depth > 0 THEN DepthScan(t, p + 1, delim, depth - 1) ELSE -1)
+    ELSE DepthScan(t, p + 1, delim, depth)
+FieldEnd(fmt, t, p) == IF Has(fmt.delim, ",") THEN DepthScan(t, p, fmt.delim, 0) ELSE Find(fmt.delim, t, p)
 
 Err == [ok |-> FALSE]
 Good(v) == [ok |-> TRUE, v |-> v]
@@ -291,14 +287,9 @@ ReadFile(fmt, types, text) ==
              ELSE [ok |-> TRUE, v |-> [i \in 1..Len(ls) |-> ts[i].v], strict |-> \A i \in 1..Len(ls) : ts[i].strict]
 
 \* ---- representability, by character classes --------------------------------------------------
-\* Plain text formats cannot carry in a symbol: a newline; the delimiter; with a ','-delimiter an unbalanced
-\* bracket; and, for a symbol inside a record / ADT (written raw): ',' , the container's closing bracket, a leading
-\* blank or a leading '"'.  Under rfc4180 everything is quoted and escaped: every symbol is representable.
-RECURSIVE Balanced(_, _, _)
-Balanced(t, p, st) == IF p > Len(t) THEN st = <<>>
-                      ELSE IF t[p] \in Opens THEN Balanced(t, p + 1, <<t[p]>> \o st)
-                      ELSE IF t[p] \in Closes THEN st # <<>> /\ Match(st[1], t[p]) /\ Balanced(t, p + 1, Tail(st))
-                      ELSE Balanced(t, p + 1, st)
+\* Plain text formats cannot carry in a symbol: a newline; the delimiter; with a ','-delimiter an unbalanced '[' / ']';
+\* and, for a symbol inside a record / ADT (written raw): ',' , the container's closing bracket, a leading blank or a
+\* leading '"'.  Under rfc4180 everything is quoted and escaped: every symbol is representable.
 RECURSIVE SymsOK(_, _, _)
 \* every symbol inside value v of type ty (closer = closing bracket of the enclosing container, "" at top level)
 SymsOK(ty, v, closer) ==
@@ -308,20 +299,31 @@ SymsOK(ty, v, closer) ==
       [] IsAdt(ty) -> LET br == CHOOSE b \in {Types[ty].b[i] : i \in 1..Len(Types[ty].b)} : b.n = v.b IN
                       \A i \in 1..Len(v.a) : SymsOK(br.f[i], v.a[i], ")")
 
+\* the first delimiter found from the start of field i is the one the writer put after it (none in the last field)
+Probe(fmt, types, ft, i) == IF i < Len(types) THEN ft[i] \o fmt.delim ELSE ft[i]
+FieldSplits(fmt, types, ft, i) ==
+    IF Has(fmt.delim, ",") THEN
+        (IF types[i] \in Scalars THEN DepthScan(Probe(fmt, types, ft, i), 1, fmt.delim, 0) = Len(ft[i]) + 1
+         ELSE DepthScan(ft[i], 1, <<NL>>, 0) = Len(ft[i]) + 1)        \* container: its own ", " aside, the brackets balance
+    ELSE Find(fmt.delim, Probe(fmt, types, ft, i), 1) = Len(ft[i]) + 1
+
 Representable(fmt, types, tup) ==
     fmt.kind = "channel" \/ fmt.rfc \/
     LET ft == [i \in 1..Len(types) |-> WriteField(fmt, types[i], tup[i])]
         n == Len(types)
     IN  /\ \A i \in 1..n : SymsOK(types[i], tup[i], "")
         /\ \A i \in 1..n : ~Has(ft[i], NL)
-        /\ \A i \in 1..n : Has(fmt.delim, ",") => Balanced(ft[i], 1, <<>>)
-        \* the first delimiter found after the start of field i is the one the writer put there
-        /\ \A i \in 1..n : LET probe == IF i < n THEN ft[i] \o fmt.delim ELSE ft[i] IN
-                           IF Has(fmt.delim, ",") THEN DepthScan(probe, 1, fmt.delim, <<>>) = Len(ft[i]) + 1
-                           ELSE Find(fmt.delim, probe, 1) = Len(ft[i]) + 1
+        /\ \A i \in 1..n : FieldSplits(fmt, types, ft, i)
+
+\* Known gap of the plain text format itself (reported as a finding, not hidden as "unrepresentable": the property
+\* names ADTs and custom delimiters): with a ','-delimiter the commas of an ADT's argument list are not protected.
+KnownGap(fmt, types, tup) ==
+    fmt.kind = "text" /\ ~fmt.rfc /\ Has(fmt.delim, ",") /\
+    LET ft == [i \in 1..Len(types) |-> WriteField(fmt, types[i], tup[i])] IN
+    \E i \in 1..Len(types) : IsAdt(types[i]) /\ DepthScan(Probe(fmt, types, ft, i), 1, fmt.delim, 0) # Len(ft[i]) + 1
 
 \* the round trip the specification promises
 RoundTrips(fmt, attrs, types, tup) ==
     fmt.kind = "channel" \/ LET r == ReadFile(fmt, types, WriteFile(fmt, attrs, types, <<tup>>)) IN r.ok /\ r.v = <<tup>>
-Theorem(fmt, attrs, types, tup) == Representable(fmt, types, tup) => RoundTrips(fmt, attrs, types, tup)
+Theorem(fmt, attrs, types, tup) == (Representable(fmt, types, tup) /\ ~KnownGap(fmt, types, tup)) <=> RoundTrips(fmt, attrs, types, tup)
 =============================================================================
